@@ -386,7 +386,7 @@ def H_fragments(ctx, cfg):
     bad = []
     for colon in (False, True):
         for gz in (False, True):
-            table = [("7", ["a", "b:0"]), ("12", []), ("3", ["only"])] + ([("7", ["second"])] if gz else [])     # a repeated label only in the API variant
+            table = [("7", ["a", "b:0"]), ("12", []), ("3", ["only"]), ("9007199254740993", ["big"]), ("18446744073709551615", ["max", "max2"])] + ([("7", ["second"])] if gz else [])     # a repeated label only in the API variant
             url = f"/mfs/f{int(colon)}{int(gz)}"
             info = V.make_info("uint32", 1, (2, 2, 2), (2, 2, 2))
             info["mesh"] = "mesh"
@@ -416,7 +416,7 @@ def H_fragments(ctx, cfg):
                 if got is None or _json.loads(bytes(got.concrete())) != {"fragments": frs}:
                     bad.append([colon, gz, lab, None if got is None else bytes(got.concrete()).decode()])
     ctx.input("bad", bad)
-    ctx.sample("4 option sets x 4-line fragment table")
+    ctx.sample("4 option sets x 6-line fragment table (labels up to 2^64-1)")
     ctx.prove(not bad, "fragment-link-files-list-exactly-the-fragments-of-each-label", detail=str(bad[:3]))
 
 
@@ -547,7 +547,7 @@ def replay(cfg, cex):
         pio = load.mod("precomputed_io")
         acc_mod = load.mod("accessor")
         from . import _vol as V
-        table = [("7", ["a", "b:0"]), ("12", []), ("3", ["only"])]
+        table = [("7", ["a", "b:0"]), ("12", []), ("3", ["only"]), ("9007199254740993", ["big"]), ("18446744073709551615", ["max", "max2"])]
         with tempfile.TemporaryDirectory() as td:
             info = V.make_info("uint32", 1, (2, 2, 2), (2, 2, 2))
             info["mesh"] = "mesh"
